@@ -14,6 +14,7 @@ import (
 	"fmt"
 	"sort"
 	"strings"
+	"sync"
 
 	"github.com/nuts-foundation/go-did/did"
 	"github.com/nuts-foundation/nuts-node/audit"
@@ -22,6 +23,9 @@ import (
 	"github.com/nuts-foundation/nuts-node/jsonld"
 	"github.com/nuts-foundation/nuts-node/network"
 	"github.com/nuts-foundation/nuts-node/network/dag"
+	"github.com/nuts-foundation/nuts-node/storage/orm"
+	"github.com/lestrrat-go/jwx/v2/jwk"
+	"gorm.io/gorm"
 	"github.com/nuts-foundation/nuts-node/vdr/resolver"
 	"go.uber.org/mock/gomock"
 )
@@ -31,6 +35,11 @@ type vMgr struct {
 	ID   string   `json:"id"`   // DID to update
 	Has  []string `json:"has"`  // key ids the key store holds
 	Next string   `json:"next"` // proposed document (JSON, base64)
+	// deepening round 2: "" = Manager.Update; "updated" / "deactivated" / "created" / "bogus" = Manager.Commit with that change type
+	// (onUpdate / Deactivate / onCreate / default branch); "new" = Manager.NewDocument with a key store handing out NewJWK, whose
+	// SQL document then goes through Commit(created)
+	Via    string `json:"via,omitempty"`
+	NewJWK string `json:"newJwk,omitempty"`
 }
 
 type vMgrOp struct {
@@ -42,6 +51,9 @@ type vMgrOp struct {
 	Has   []string `json:"has"`
 	Doc   *vNDoc   `json:"doc"`   // the document Manager.Update validates (after withJSONLDContext); nil: the proposal is not JSON for a did.Document
 	SvcOk bool     `json:"svcOk"` // managedServiceValidator's verdict (contract; outside C09)
+	Via   string   `json:"via,omitempty"`
+	Key   string   `json:"key,omitempty"` // via=new: the generated key (RFC 7638 thumbprint, base64url - the model's key name)
+	B58   string   `json:"b58,omitempty"` // via=new: the same thumbprint in base58, calculated by the harness's own code
 }
 
 var errVerifStop = errors.New("verif-stop")
@@ -60,37 +72,78 @@ type vMgrResult struct {
 	payload []byte // what was handed to the network
 	view    *vNDoc
 	svcOk   bool
+	key     string // creation template: thumbprint (harness's own RFC 7638 code) of the attached public key
+	newDoc  string // via=new: id | verificationMethod ids | number of entries per relationship of the document NewDocument made
+	nothing bool   // Commit answered nil without publishing (onUpdate on a deactivated document)
+	newKey, newB58 string
 }
 
 func (r vMgrResult) line() string {
 	if r.class != "ok" {
 		return r.class
 	}
+	if r.nothing {
+		return "ok nothing"
+	}
 	var ps []string
 	for _, p := range r.prevs {
 		ps = append(ps, p.String()[:10])
 	}
-	return fmt.Sprintf("ok kid=%s prevs=[%s]", r.kid, strings.Join(ps, ","))
+	out := fmt.Sprintf("ok kid=%s prevs=[%s]", r.kid, strings.Join(ps, ","))
+	if r.key != "" {
+		out += " key=" + r.key
+	}
+	if r.newDoc != "" {
+		out += " new=" + r.newDoc
+	}
+	return out
+}
+
+var (
+	vSQLOnce sync.Once
+	vSQLDB   *gorm.DB
+)
+
+// thumbprint of a public key through the harness's own RFC 7638 code (JWK -> JSON map -> vThumb)
+func vThumbOfPublic(pub interface{}) string {
+	k, err := jwk.FromRaw(pub)
+	if err != nil {
+		return "?(" + err.Error() + ")"
+	}
+	b, _ := json.Marshal(k)
+	m := map[string]interface{}{}
+	_ = json.Unmarshal(b, &m)
+	t, ok := vThumb(m)
+	if !ok {
+		return "?(not-ec)"
+	}
+	return base64.RawURLEncoding.EncodeToString(t)
 }
 
 func (n *vNode) runManager(m *vMgr) (res vMgrResult) {
 	res.svcOk = true
 	defer func() {
 		if r := recover(); r != nil {
-			res.class = "panic:" + vPanicSite(r)
+			site := vPanicSite(r)
+			if strings.HasPrefix(site, "other(") && m.Via == "created" && strings.Contains(fmt.Sprint(r), "index out of range [0] with length 0") {
+				site = "onCreate:VerificationMethod[0]"
+			}
+			res.class = "panic:" + site
 		}
 		n.onCreate = nil
 	}()
 	raw, _ := base64.StdEncoding.DecodeString(m.Next)
 	var next did.Document
-	if err := json.Unmarshal(raw, &next); err != nil {
+	parseErr := json.Unmarshal(raw, &next)
+	if parseErr != nil && m.Via == "" {
 		res.class = "err:mgr:unparseable"
 		return
 	}
-	// the document as Manager.Update validates and publishes it
-	shown := withJSONLDContext(withJSONLDContext(next, did.DIDContextV1URI()), jsonld.JWS2020ContextV1URI())
-	v := vView(shown)
-	res.view = &v
+	id, err := did.ParseDID(m.ID)
+	if err != nil && m.Via != "new" {
+		res.class = "err:mgr:bad-did"
+		return
+	}
 	has := map[string]bool{}
 	for _, k := range m.Has {
 		has[k] = true
@@ -104,20 +157,102 @@ func (n *vNode) runManager(m *vMgr) (res vMgrResult) {
 	}
 	res2 := &Resolver{Store: n.store}
 	mgr := Manager{keyStore: ks, networkClient: n.amb.networkClient, resolver: res2, serviceResolver: resolver.DIDServiceResolver{Resolver: res2}, store: n.store}
-	id, err := did.ParseDID(m.ID)
-	if err != nil {
-		res.class = "err:mgr:bad-did"
+	var preErr error
+	if id != nil {
+		_, _, preErr = n.store.Resolve(*id, &resolver.ResolveMetadata{AllowDeactivated: true})
+	}
+	change := orm.DIDChangeLog{DIDDocumentVersion: orm.DidDocument{DID: orm.DID{ID: m.ID}, Raw: string(raw)}}
+	switch m.Via {
+	case "":
+		// the document as Manager.Update validates and publishes it
+		v := vView(withJSONLDContext(withJSONLDContext(next, did.DIDContextV1URI()), jsonld.JWS2020ContextV1URI()))
+		res.view = &v
+		err = mgr.Update(audit.TestContext(), *id, next)
+	case "deactivated":
+		empty := CreateDocument()
+		empty.ID = *id
+		v := vView(empty)
+		res.view = &v
+		change.Type = orm.DIDChangeDeactivated
+		err = mgr.Commit(audit.TestContext(), change)
+	case "updated", "created", "bogus":
+		if parseErr == nil {
+			v := vView(next)
+			res.view = &v
+		}
+		change.Type = map[string]string{"updated": orm.DIDChangeUpdated, "created": orm.DIDChangeCreated, "bogus": "renamed"}[m.Via]
+		if m.Via == "created" {
+			vSQLOnce.Do(func() { vSQLDB = testDB(n.t) })
+			mgr.db = vSQLDB
+		}
+		err = mgr.Commit(audit.TestContext(), change)
+	case "new":
+		// Manager.NewDocument with a key store that "generates" the given key and names it with the function NewDocument hands in
+		key, perr := jwk.ParseKey([]byte(m.NewJWK))
+		if perr != nil {
+			res.class = "err:mgr:bad-new-key"
+			return
+		}
+		var pub interface{}
+		if perr = key.Raw(&pub); perr != nil {
+			res.class = "err:mgr:bad-new-key"
+			return
+		}
+		ks.EXPECT().New(gomock.Any(), gomock.Any()).AnyTimes().DoAndReturn(func(_ context.Context, naming nutsCrypto.KIDNamingFunc) (*orm.KeyReference, interface{}, error) {
+			name, nerr := naming(pub)
+			if nerr != nil {
+				return nil, nil, nerr
+			}
+			return &orm.KeyReference{KID: name, KeyName: "verif", Version: "1"}, pub, nil
+		})
+		sqlDoc, nerr := mgr.NewDocument(audit.TestContext(), DefaultKeyFlags())
+		if nerr != nil {
+			res.class = "err:mgr:new-document:" + vErrCause(nerr)
+			return
+		}
+		gen, gerr := sqlDoc.GenerateDIDDocument()
+		if gerr != nil {
+			res.class = "err:mgr:generate:" + vErrCause(gerr)
+			return
+		}
+		v := vView(gen)
+		res.view = &v
+		var vmIDs []string
+		for _, vm := range gen.VerificationMethod {
+			vmIDs = append(vmIDs, vm.ID.String())
+		}
+		res.newDoc = fmt.Sprintf("%s|%s|%d,%d,%d,%d,%d|ctrl=%d|svc=%d", gen.ID.String(), strings.Join(vmIDs, ","), len(gen.Authentication), len(gen.AssertionMethod),
+			len(gen.KeyAgreement), len(gen.CapabilityInvocation), len(gen.CapabilityDelegation), len(gen.Controller), len(gen.Service))
+		// the harness's own naming of the key: RFC 7638 thumbprint in base64url (key id fragment) and base58 (DID)
+		res.newKey = vThumbOfPublic(pub)
+		if tb, derr := base64.RawURLEncoding.DecodeString(res.newKey); derr == nil {
+			res.newB58 = vBase58(tb)
+		}
+		// the sub-key naming function for the same key under this DID (what AddVerificationMethod uses)
+		if sub, serr := didSubKIDNamingFunc(gen.ID)(pub); serr == nil {
+			res.newDoc += "|sub=" + sub
+		} else {
+			res.newDoc += "|sub=ERR"
+		}
+		vSQLOnce.Do(func() { vSQLDB = testDB(n.t) })
+		mgr.db = vSQLDB
+		change = orm.DIDChangeLog{Type: orm.DIDChangeCreated, DIDDocumentVersion: *sqlDoc} // Raw is empty: ToDIDDocument generates the document
+		err = mgr.Commit(audit.TestContext(), change)
+	default:
+		res.class = "err:mgr:bad-via"
 		return
 	}
-	_, _, preErr := n.store.Resolve(*id, &resolver.ResolveMetadata{AllowDeactivated: true})
-	err = mgr.Update(audit.TestContext(), *id, next)
 	if captured != nil {
-		if captured.Type != DIDDocumentType || captured.PublicKey != nil {
+		creation := m.Via == "created" || m.Via == "new"
+		if captured.Type != DIDDocumentType || (captured.PublicKey != nil) != creation {
 			res.class = "ok+TEMPLATE-MISMATCH"
 		} else {
 			res.class = "ok"
 		}
 		res.kid, res.prevs, res.payload = captured.KID, captured.AdditionalPrevs, captured.Payload
+		if captured.PublicKey != nil {
+			res.key = vThumbOfPublic(captured.PublicKey)
+		}
 		return
 	}
 	msg := ""
@@ -125,12 +260,22 @@ func (n *vNode) runManager(m *vMgr) (res vMgrResult) {
 		msg = err.Error()
 	}
 	switch {
+	case err == nil && m.Via == "updated": // nil and nothing handed to the network
+		res.class, res.nothing = "ok", true
 	case err == nil:
 		res.class = "err:mgr:nothing-published"
+	case strings.Contains(msg, "unknown event type"):
+		res.class = "err:mgr:unknown-event-type"
+	case m.Via == "created" && parseErr != nil:
+		res.class = "err:mgr:unparseable"
+	case m.Via == "created" || m.Via == "new":
+		res.class = "err:mgr:create-key:" + vErrCause(err)
 	case preErr != nil:
 		res.class = "err:mgr:resolve:" + vErrCause(preErr)
-	case errors.Is(err, resolver.ErrDeactivated) && !strings.Contains(msg, "controller"):
+	case errors.Is(err, resolver.ErrDeactivated) && !strings.Contains(msg, "controller") && m.Via != "updated": // onUpdate's own deactivation test answers nil
 		res.class = "err:mgr:deactivated"
+	case m.Via == "updated" && parseErr != nil:
+		res.class = "err:mgr:unparseable"
 	case strings.Contains(msg, "could not find any controllers for document"):
 		res.class = "err:mgr:no-controllers"
 	case strings.Contains(msg, "could not find capabilityInvocation key"):
@@ -156,7 +301,11 @@ func (g *vGen) mgrStep(n *vNode) *vPair {
 	if d == nil || d.latest() == nil {
 		return nil
 	}
+	if g.rng.Intn(5) == 0 { // the creation side: NewDocument / Commit(created)
+		return g.mgrCreateStep(n)
+	}
 	spec := d.latest().spec.clone()
+	via := []string{"", "", "", "updated", "updated", "deactivated", "bogus"}[g.rng.Intn(7)]
 	switch g.rng.Intn(8) {
 	case 0:
 		vDeactivate(&spec)
@@ -185,13 +334,20 @@ func (g *vGen) mgrStep(n *vNode) *vPair {
 			has = append(has, k)
 		}
 	}
+	if via == "deactivated" {
+		spec = d.latest().spec.clone()
+		vDeactivate(&spec) // what Deactivate proposes itself; the proposal of the change is ignored
+	}
 	payload := spec.payload()
-	m := &vMgr{ID: spec.ID, Has: has, Next: base64.StdEncoding.EncodeToString(payload)}
+	if via == "updated" && g.rng.Intn(12) == 0 {
+		payload = []byte(`{"id": 7`) // the change log holds something that is no DID document
+	}
+	m := &vMgr{ID: spec.ID, Has: has, Next: base64.StdEncoding.EncodeToString(payload), Via: via}
 	if has == nil {
 		m.Has = []string{}
 	}
 	res := n.runManager(m)
-	if res.class != "ok" {
+	if res.class != "ok" || res.nothing {
 		g.preQueue = append(g.preQueue, m)
 		return nil
 	}
@@ -221,6 +377,80 @@ func (g *vGen) mgrStep(n *vNode) *vPair {
 		if ok {
 			target.versions = append(target.versions, vVersion{spec: pubSpec.clone(), ref: tx.Ref(), clock: tx.Clock(), time: tx.SigningTime().Unix()})
 		}
+	})
+	p.Pre = append(p.Pre, m)
+	return p
+}
+
+// the creation side of the publishing path. Mostly the REAL NewDocument (key store hands out a generator key, named by the
+// function NewDocument passes in) -> SQL document -> Commit(created) -> onCreate; sometimes Commit(created) on a document the
+// change log holds whose first verification method is not the DID's key / has a made-up type / is missing.
+// The captured creation template is signed with the attached key and delivered to the ambassador like any received creation.
+func (g *vGen) mgrCreateStep(n *vNode) *vPair {
+	k := g.freshKey()
+	var m *vMgr
+	spec := vBasicDoc(k)
+	mode := g.rng.Intn(8)
+	switch {
+	case mode <= 3:
+		jb, _ := json.Marshal(k.pubM)
+		m = &vMgr{ID: k.did, Has: []string{}, Via: "new", NewJWK: string(jb)}
+		// what NewDocument + GenerateDIDDocument make: the key under all five relationships
+		id := k.did + "#" + k.b64
+		spec.Rels = map[string][]interface{}{"authentication": {id}, "assertionMethod": {id}, "keyAgreement": {id}, "capabilityInvocation": {id}, "capabilityDelegation": {id}}
+	case mode == 4: // first method is another key: onCreate attaches THAT key; the ambassador must refuse (DID != thumbprint)
+		other := g.freshKey()
+		spec = vBasicDoc(k, other)
+		spec.VMs[0], spec.VMs[1] = spec.VMs[1], spec.VMs[0]
+	case mode == 5: // no verification method at all
+		spec.VMs = nil
+		spec.Rels = map[string][]interface{}{}
+	case mode == 6: // first method has a type go-did has no key decoding for
+		spec.VMs[0].Type = "MadeUpVerificationKey2024"
+	default: // a plain well-formed creation through Commit(created), sometimes not JSON
+	}
+	payload := spec.payload()
+	if m == nil {
+		if mode == 7 && g.rng.Intn(3) == 0 {
+			payload = []byte(`{"id": 7`)
+		}
+		m = &vMgr{ID: spec.ID, Has: []string{}, Via: "created", Next: base64.StdEncoding.EncodeToString(payload)}
+	}
+	res := n.runManager(m)
+	if res.class != "ok" {
+		g.preQueue = append(g.preQueue, m)
+		return nil
+	}
+	var key *vKey
+	for _, c := range g.keys {
+		if c.b64 == res.key {
+			key = c
+		}
+	}
+	if key == nil {
+		g.preQueue = append(g.preQueue, m)
+		return nil
+	}
+	kind := "mgr:created"
+	if m.Via == "new" {
+		kind = "mgr:new-created"
+		var parsed did.Document
+		if json.Unmarshal(res.payload, &parsed) == nil {
+			spec.ID = parsed.ID.String()
+		}
+	}
+	pubSpec := spec
+	p := g.emit(kind, res.payload, vSignSpec{key: key, kid: res.kid, attach: key, prevs: res.prevs, clock: g.clockFor(res.prevs)}, func(ok bool, tx dag.Transaction) {
+		if !ok {
+			return
+		}
+		d := g.dids[pubSpec.ID]
+		if d == nil {
+			d = &vDid{key: key}
+			g.dids[pubSpec.ID] = d
+			g.order = append(g.order, pubSpec.ID)
+		}
+		d.versions = append(d.versions, vVersion{spec: pubSpec.clone(), ref: tx.Ref(), clock: tx.Clock(), time: tx.SigningTime().Unix()})
 	})
 	p.Pre = append(p.Pre, m)
 	return p
